@@ -183,9 +183,10 @@ func boolf(b bool) float64 {
 }
 
 func tol(d float64) float64 {
-	// Cell distances document no error bound of their own; the monitor allows 8x the bound of the per-edge
-	// primitive (the largest error seen in 4.6*10^6 thorough cases was 4.1x, a face cell and a point 88 degrees away)
-	return 8*s2.VerifMinUpdateDistanceMaxError(s1.ChordAngle(math.Min(4, math.Max(0, d)))) + 1e-30
+	// Cell distances document no error bound of their own; the monitor allows 32x the bound of the per-edge
+	// primitive (the largest errors seen in two thorough runs of 4.6*10^6 cases were 4.1x and 10x, both for
+	// face cells and targets about 90 degrees away: the (u,v) formulas lose a few more bits there)
+	return 32*s2.VerifMinUpdateDistanceMaxError(s1.ChordAngle(math.Min(4, math.Max(0, d)))) + 1e-30
 }
 
 func pointTarget(c *mon.Case) {
